@@ -401,6 +401,184 @@ def seeded_cases(rng, n, max1, max2, start_id, pools):
     return out
 
 
+# ---------------------------------------------------------------------------------
+# world sessions (ArrayMatch.tla section "world"; machine and sessions: ArrayMatchWorld.tla)
+# ---------------------------------------------------------------------------------
+WORLD_K = 7            # abstract values 1..7 (objects hold 2..6, the probes reach 1 and 7)
+WORLD = {
+    "quick": dict(mc=dict(WNObj=1, WLens={2}, WVals={2, 3}, WNProbes=1, WDepth=3), num=260, keep=120, depth=8),
+    "thorough": dict(mc=dict(WNObj=1, WLens={2}, WVals={2, 3}, WNProbes=1, WDepth=4), num=2600, keep=1500, depth=10),
+}
+WORLD_SIM = dict(WNObj=2, WLens={3, 4}, WVals={2, 3, 4, 5, 6}, WNProbes=4, WTypes={"i8", "f8", "i2", "u4", "f4", "S", "U"},
+                 WPlaces={"bottom", "top", "ends", "mid"}, WKinds={"rw", "roview", "memmap"}, WMinCalls=3, Thin=True,
+                 DoExport=True, CacheMode="none")
+WORLD_MODES = (("readonly_id", "the sort order of a read-only first array remembered by object identity"),
+               ("id_noweak", "sort orders remembered by address and kept after the object died"),
+               ("share_result", "remembered result arrays handed out to the caller"))
+
+
+def _session_in_process(c):
+    """execute one session on the real code in THIS process -> (observations, exception names)"""
+    import gc
+    import shutil
+    import tempfile
+    import esutil.numpy_util as nu
+    t, place = c["t"], c["p"]
+    inj = R.single_injection(t, place, WORLD_K)
+    table = R.check_increasing(lambda v: inj(v, 0), range(1, WORLD_K + 1))
+    inv = {item: v for v, item in table.items()}
+    dt = R.dtype_for(t, "native", list(table.values()))
+    tmp = [None]
+    serial = [0]
+
+    def items(a):
+        return np.array([table[v] for v in a], dtype=dt)
+
+    def make(kind, a):
+        arr = items(a)
+        if kind == "rw":
+            return {"x": arr, "w": arr, "kind": kind}
+        if kind == "roview":
+            x = arr.view()
+            x.flags.writeable = False
+            return {"x": x, "w": arr, "kind": kind}
+        if tmp[0] is None:
+            tmp[0] = tempfile.mkdtemp(prefix="C06-world-")
+        serial[0] += 1
+        fn = os.path.join(tmp[0], "o%d.dat" % serial[0])
+        arr.tofile(fn)
+        return {"x": np.memmap(fn, dtype=dt, mode="r"), "w": np.memmap(fn, dtype=dt, mode="r+"), "kind": kind}
+
+    def back(x):
+        return [inv.get(item, 0) for item in np.asarray(x).tolist()]
+
+    objs = [make(o["kind"], o["a"]) for o in c["objs"]]
+    results, obs, excs = {}, [], []
+    try:
+        for k, s in enumerate(c["steps"], 1):
+            o = s["o"] - 1
+            if s["op"] == "call":
+                x1 = objs[o]["x"]
+                x2 = items(s["a"]) if s["src"] == 0 else objs[s["src"] - 1]["x"]
+                vals = back(x1)
+                f = nu.match_multi if s["fn"].startswith("match_multi") else nu.match
+                kw = {"presorted": True} if s["fn"].endswith("presorted") else {}
+                err, res, exc = _call(f, x1, x2, **kw)
+                if err == "none":
+                    try:
+                        i1, i2 = res
+                        ob = _obs(s["fn"], err, _ints(i1), _ints(i2), vals)
+                        results[k] = res
+                    except Exception:  # noqa - not a pair of index arrays: nothing the spec accepts
+                        ob = _obs(s["fn"], "none", [-1], [], vals)
+                else:
+                    ob = _obs(s["fn"], err, vals=vals)
+                obs.append(ob); excs.append(exc)
+                continue
+            if s["op"] == "mutate":
+                objs[o]["w"][...] = items(s["a"])
+                if objs[o]["kind"] == "memmap":
+                    objs[o]["w"].flush()
+            elif s["op"] == "replace":
+                kind = objs[o]["kind"]
+                objs[o] = None
+                gc.collect()
+                objs[o] = make(kind, s["a"])
+            elif s["op"] == "scribble":
+                for arr in (results.get(s["o"]) or ()):
+                    try:
+                        arr[...] = 10 ** 6          # the caller's arrays now: any later result showing this is not fresh
+                    except Exception:  # noqa - a result the caller cannot write to: the statement is silent
+                        pass
+            obs.append(_obs("step", "none")); excs.append("")
+    finally:
+        del objs
+        gc.collect()
+        if tmp[0] is not None:
+            shutil.rmtree(tmp[0], ignore_errors=True)
+    return obs, excs
+
+
+def run_session(args):
+    """one session = one fresh process (forked from this one, esutil imported, no call made yet)"""
+    import json
+    i, c = args
+    rd, wr = os.pipe()
+    pid = os.fork()
+    if pid == 0:
+        code = 0
+        try:
+            os.close(rd)
+            try:
+                out = {"ok": _session_in_process(c)}
+            except BaseException as e:  # noqa - reported to the parent as machinery trouble
+                out = {"fail": "%s: %s" % (type(e).__name__, e)}
+            with os.fdopen(wr, "w") as f:
+                f.write(json.dumps(out))
+        except BaseException:  # noqa
+            code = 1
+        finally:
+            os._exit(code)
+    os.close(wr)
+    with os.fdopen(rd) as f:
+        data = f.read()
+    _, status = os.waitpid(pid, 0)
+    if status != 0 or not data:
+        raise MachineryError("session process died (status %s): %s" % (status, c))
+    out = json.loads(data)
+    if "fail" in out:
+        raise MachineryError("session could not be executed (%s): %s" % (out["fail"], c))
+    obs, excs = out["ok"]
+    return {"id": i, "c": c, "reps": [], "obs": obs, "exc": excs, "ncalls": sum(1 for s in c["steps"] if s["op"] == "call")}
+
+
+def session_class(c, k):
+    """what the caller did to the first argument of call k since the previous call on it"""
+    s = c["steps"][k - 1]
+    tag, seen = "first_call", False
+    for q in c["steps"][:k - 1]:
+        if q["op"] == "call" and q["o"] == s["o"]:
+            tag, seen = "unchanged_since_last_call", True
+        elif q["op"] == "mutate" and q["o"] == s["o"] and seen:
+            tag = "contents_changed_since_last_call"
+        elif q["op"] == "replace" and q["o"] == s["o"]:
+            tag, seen = "new_object_under_the_name", False
+    if tag == "unchanged_since_last_call" and any(q["op"] == "scribble" for q in c["steps"][:k - 1]):
+        tag = "earlier_result_scribbled"
+    return "session/%s/%s" % (c["objs"][s["o"] - 1]["kind"], tag)
+
+
+def judge_sessions(ctx, recs, what):
+    rejects = tracecheck.validate(ctx, "ArrayMatchTrace.tla", [{"id": r["id"], "c": r["c"], "reps": [], "obs": r["obs"]} for r in recs],
+                                  what=what, shard_size=2000)
+    byid = {r["id"]: r for r in recs}
+    for rid in sorted(rejects):
+        r = byid[rid]
+        for k, fn, cl in rejects[rid]:
+            if cl in MACHINERY_CLAUSES:
+                raise MachineryError("ArrayMatchTrace rejects the session record itself (%s, step %s): %s" % (cl, k, r["c"]))
+            ctx.violation("%s|%s|%s" % (ENTRY.get(fn, fn), cl, session_class(r["c"], k)),
+                          "numpy_util.%s inside a session of calls in one process: result not allowed by ArrayMatch.tla for the contents "
+                          "the arguments had at the time of the call: clause %s" % (ENTRY.get(fn, fn), cl),
+                          {"kind": "session", "c": r["c"], "id": r["id"], "step": k,
+                           "observed": [dict(r["obs"][k - 1], exc=r["exc"][k - 1])]})
+    return rejects
+
+
+def world_stats(sessions):
+    st = {"ro_changed_then_passed_again": 0, "rw_changed_then_passed_again": 0, "replaced_then_called": 0, "scribbled_then_called": 0,
+          "same_object_twice": 0, "memmap": 0, "rejected_call_inside": 0}
+    for c in sessions:
+        tags = {session_class(c, k) for k, s in enumerate(c["steps"], 1) if s["op"] == "call" and not s["fn"].endswith("presorted")}
+        st["ro_changed_then_passed_again"] += any(x.endswith("contents_changed_since_last_call") and "/rw/" not in x for x in tags)
+        st["rw_changed_then_passed_again"] += any(x.endswith("contents_changed_since_last_call") and "/rw/" in x for x in tags)
+        st["replaced_then_called"] += any(x.endswith("new_object_under_the_name") for x in tags)
+        st["scribbled_then_called"] += any(x.endswith("earlier_result_scribbled") for x in tags)
+        st["same_object_twice"] += any(s["op"] == "call" and s["src"] == s["o"] for s in c["steps"])
+        st["memmap"] += any(o["kind"] == "memmap" for o in c["objs"])
+    return st
+
+
 BOUNDS = {
     "quick": dict(
         export=dict(MaxLen1=3, MaxLen2=3, RepLen2=2, A1Vals=set(range(2, 7)), A2Vals=set(range(1, 8)),
@@ -550,11 +728,39 @@ def run(ctx):
                 out.append((kind, tuple(c["a1"]), tuple(c["a2"]), tuple(c["f"]), tuple(ids)))
         return out, design
 
+    W = WORLD[ctx.tier]
+    wmc = dict(WORLD_SIM, **dict(W["mc"], WTypes={"i8"}, WPlaces={"mid"}, WKinds={"rw", "roview"}, WMinCalls=0, Thin=False, DoExport=False))
+
+    def world(task):
+        """the world machine (ArrayMatchWorld.tla): theorem, deviating mechanisms, simulated sessions"""
+        if task == "mc":
+            r = ctx.tlc("ArrayMatchWorld.tla", what="world machine: every call of every session = its outcome in a fresh world",
+                        cfg_text=cfg(constants=wmc, invariants=["WorldFresh", "SessionsOK", "CurIsFold"]), workers=4,
+                        require=["SetupRep", "SetupKinds", "SetupContents", "Call", "Mutate", "Replace", "Scribble"], timeout=3000)
+            if r.distinct < 5000:
+                raise MachineryError("world machine visited only %d states" % r.distinct)
+            return None
+        if task == "sim":
+            r = ctx.tlc("ArrayMatchWorld.tla", what="simulate sessions (calls, MutateBase, Replace, Scribble over 2 objects)",
+                        cfg_text=cfg(constants=dict(WORLD_SIM, WDepth=W["depth"]), constraints=["Export"]), workers=1, coverage=False,
+                        timeout=3000, simulate="num=%d" % W["num"], extra=["-depth", str(W["depth"] + 8), "-seed", str(6000 + ctx.seed)])
+            if r.garbled:
+                raise MachineryError("export of sessions garbled (%d)" % r.garbled)
+            return r.records.get("SESSION", [])
+        r = ctx.tlc("ArrayMatchWorld.tla", what="self-test: %s violates WorldFresh" % dict(WORLD_MODES)[task],
+                    cfg_text=cfg(constants=dict(wmc, CacheMode=task, WDepth=3), invariants=["WorldFresh"]), workers=2, allow_violation=True,
+                    coverage=False)
+        if "WorldFresh" not in r.violated:
+            raise MachineryError("self-test failed: WorldFresh not violated by the deviating mechanism (%s)" % task)
+        return None
+
     nsh = B["shards"]
     tasks = [("scale", 0, 1)] + [(kind, i, nsh[kind]) for kind in ("match", "dedup") for i in range(nsh[kind])]
     design, scale_cases = None, []
     with ThreadPoolExecutor(max(1, min(6, int(os.environ.get("VH_MAX_WORKERS", "16"))))) as ex:
+        wfuts = [ex.submit(world, t) for t in ["sim", "mc"] + [m for m, _ in WORLD_MODES]]
         futs = [ex.submit(export, t) for t in tasks]
+        sessions = [f.result() for f in wfuts][0]
         for (kind, shard, _), fut in zip(tasks, futs):
             if kind == "scale":
                 scale_cases = fut.result()[0]
@@ -614,6 +820,38 @@ def run(ctx):
                     and len(r["obs"][2]["i1"]) >= 2), None)
     nscale = len(srecs)
     del srecs
+    # 2c. world sessions: each executed in ONE fresh process, every call judged by TLC for the contents at the time of the call
+    seen, uniq = set(), []
+    for c in sessions:
+        key = repr(c)
+        if key not in seen:
+            seen.add(key)
+            uniq.append(dict(c, kind="session"))
+    sessions = uniq[:W["keep"]]
+    wstats = world_stats(sessions)
+    need = max(3, len(sessions) // 12)
+    if len(sessions) < W["keep"] or any(len(c["steps"]) != W["depth"] for c in sessions) or \
+            min(wstats[k] for k in ("ro_changed_then_passed_again", "rw_changed_then_passed_again", "replaced_then_called",
+                                    "scribbled_then_called", "same_object_twice", "memmap")) < need:
+        raise MachineryError("simulated sessions are too few / too thin (vacuity guard): %d kept, %s" % (len(sessions), wstats))
+    ctx.log("executing %d sessions of %d steps, each in a fresh process" % (len(sessions), W["depth"]))
+    wrecs = pmap(run_session, [(state["nid"] + i, c) for i, c in enumerate(sessions, 1)])
+    state["nid"] += len(wrecs)
+    for r in wrecs:
+        ctx.count(r["c"])
+        state["ncalls"] += r["ncalls"]
+    ctx.evaluations += sum(r["ncalls"] - 1 for r in wrecs)
+    ctx.sample({"session": wrecs[0]["c"], "observed": wrecs[0]["obs"]}, cap=12)
+    judge_sessions(ctx, wrecs, "judge sessions call by call (ArrayMatchTrace)")
+    wprobe = next((r for r in wrecs if any(o["fn"] == "match" and o["err"] == "none" and len(o["i2"]) >= 2 for o in r["obs"])), None)
+    if wprobe is None:
+        raise MachineryError("no session probe record for the binding self-test")
+    wk = next(k for k, o in enumerate(wprobe["obs"]) if o["fn"] == "match" and o["err"] == "none" and len(o["i2"]) >= 2)
+    wbad1 = [dict(o, i1=o["i1"][:-1], i2=o["i2"][:-1]) if k == wk else o for k, o in enumerate(wprobe["obs"])]
+    wbad2 = [dict(o, vals=o["vals"][::-1] if o["vals"] != o["vals"][::-1] else o["vals"] + [1]) if k == wk else o
+             for k, o in enumerate(wprobe["obs"])]
+    nsess = len(wrecs)
+    del wrecs
     # 3. larger seeded cases, code -> spec
     ns, max1, max2 = B["seeded"]
     pools = {k: [v[key] for key in sorted(v)] for k, v in pools.items()}
@@ -648,12 +886,16 @@ def run(ctx):
                                {"id": 8, "c": sprobe["c"], "reps": sprobe["reps"], "obs": [sbad2]},
                                {"id": 9, "c": sprobe["c"], "reps": sprobe["reps"], "obs": [so]},
                                {"id": 10, "c": dsprobe["c"], "reps": dsprobe["reps"], "obs": [dbad]},
-                               {"id": 11, "c": dsprobe["c"], "reps": dsprobe["reps"], "obs": [dgood]}],
+                               {"id": 11, "c": dsprobe["c"], "reps": dsprobe["reps"], "obs": [dgood]},
+                               {"id": 12, "c": wprobe["c"], "reps": [], "obs": wbad1},
+                               {"id": 13, "c": wprobe["c"], "reps": [], "obs": wbad2},
+                               {"id": 14, "c": wprobe["c"], "reps": [], "obs": wprobe["obs"]}],
                               what="self-test: corrupted records rejected", workers=1)
     ctx.traces = saved
     want = {1: [[1, "match", "not_ordered_by_second_array"]], 3: [[1, "match", "matching_element_missing"]],
             4: [[1, "rem_dup", "not_one_index_per_value"]], 7: [[1, so["fn"], "not_ordered_by_second_array"]],
-            8: [[1, so["fn"], "not_ordered_by_second_array"]], 10: [[1, "rem_dup", "not_one_index_per_value"]]}
+            8: [[1, so["fn"], "not_ordered_by_second_array"]], 10: [[1, "rem_dup", "not_one_index_per_value"]],
+            12: [[wk + 1, "match", "matching_element_missing"]], 13: [[wk + 1, "match", "bad_record"]]}
     # (records 2, 5, 9, 11 are the untouched observations: rejected only if the real code is wrong there)
     if any(rej.get(k) != v for k, v in want.items()) or not any(cl == "bad_representation" for _, _, cl in rej.get(6, [])):
         raise MachineryError("binding self-test failed: %s" % rej)
@@ -692,6 +934,12 @@ def run(ctx):
 
 
 def replay(ctx, case):
+    if case.get("kind") == "session":          # the whole session, re-executed in one fresh process
+        rec = run_session((1, case["c"]))
+        for k, (st, o, e) in enumerate(zip(case["c"]["steps"], rec["obs"], rec["exc"]), 1):
+            print("replay step %d:" % k, {x: st[x] for x in ("op", "o", "fn", "src", "a")}, "->", o if st["op"] == "call" else "", e)
+        judge_sessions(ctx, [rec], "replay")
+        return
     if case.get("kind") == "scale":
         rec = run_scale_case((1, case["c"]))
         for o, e in zip(rec["obs"], rec["exc"]):
